@@ -87,7 +87,16 @@ def check_matrix(np, sparse, ce, pp, layout, lg):
             bad.append(('threshold-monotone', 'a probability exceeds threshold 1.0'))
         results.append(res)
     a = results[0]
-    for b in results[1:]:
+    # exact ties (two equal top scores in a frame, or neighbouring frames with equal best probability) make the alignment and the
+    # most-confident-frame choice ambiguous: a constant of 1000 perturbs the log-softmax by ~1e-13 and may resolve such a tie the other
+    # way (so does the 1e-16 noise of the small ramp), which legitimately changes the confidences.  Shift invariance is therefore
+    # compared on tie-free matrices only (the other clauses are evaluated on every matrix and every variant).
+    srt = np.sort(arr, axis=1)
+    pm = np.exp(arr - np.log(np.exp(arr).sum(axis=1, keepdims=True))).max(axis=1)
+    ties = bool((np.abs(srt[:, -1] - srt[:, -2]) < 1e-9).any() or (np.abs(pm[1:] - pm[:-1]) < 1e-9).any())
+    for vi, b in enumerate(results[1:], 1):
+        if ties:
+            continue
         for key in a:
             if key == 'flags':
                 same = a[key] == b.get(key)
